@@ -409,6 +409,11 @@ func runC15(w *vx.W) {
 			}
 		}
 	}
+	// long streams: hundreds and thousands of definitions in one file (whatever the decoder keeps per definition about the
+	// profile entries must stay the entry of that definition's own message)
+	mixLongRunsTotality(w, "long-runs-of-definitions", func(l longRun, entry, pn string, stream []byte) {
+		w.Violation("reflection-fails/long-run", fmt.Sprintf("long run %s: %s panics: %s", l, entry, pn), c15Replay{What: "declared-type", Hex: vx.Hex(stream)})
+	})
 	// ---- the tables are read-only: after exercising the encoder on every array-valued entry of every message
 	// slice (arrays longer and shorter than the profile length, two messages per slice) and the decoder on the
 	// dynamic confirmations above, every entry must still pass the static checks and the table digest is unchanged
